@@ -224,6 +224,11 @@ namespace
           LD e0 = mc.integrate(e * e), e1 = mc.integrate(g2), e2 = mc.integrate(h2);
           LD s0 = mc.integrate_abs(fn * fn) + mc.integrate_abs(p * p);
           auto info = Assembly::ScalarErrorComputer<max_der>::compute(vec, ff, space, cf);
+          {
+            // a second evaluation (same cubature factory object, same vector) gives bitwise the same numbers
+            auto info2 = Assembly::ScalarErrorComputer<max_der>::compute(vec, ff, space, cf);
+            c.check(info2.norm_h0 == info.norm_h0 && info2.norm_h1 == info.norm_h1 && info2.norm_h2 == info.norm_h2, k + " computer.repeat", "a second error computation gives other numbers");
+          }
           c.count("error_evaluations");
           c.check(near(info.norm_h0 * info.norm_h0, e0, s0), k + " computer.h0", [&]{ return "H0 error " + std::to_string(info.norm_h0) + " vs exact " + std::to_string(double(std::sqrt(e0))) + (which ? "" : " (function == FE function)"); });
           c.check(near(info.norm_h1 * info.norm_h1, e1, s0 * 16), k + " computer.h1", [&]{ return "H1 error " + std::to_string(info.norm_h1) + " vs exact " + std::to_string(double(std::sqrt(e1))); });
@@ -351,6 +356,19 @@ namespace
           }
         }
         c.check(ok, ku + " dofs-and-values", [&]{ return why; });
+        // re-invocation: the same mesh part added twice, and assembling a second time into the already filled filter,
+        // give the same filter
+        {
+          Assembly::UnitFilterAssembler<MeshType> ufa2;
+          ufa2.add_mesh_part(part);
+          ufa2.add_mesh_part(part);
+          LAFEM::UnitFilter<double, Index> f2;
+          ufa2.assemble(f2, space, ff);
+          ufa2.assemble(f2, space, ff);
+          bool same = (f2.used_elements() == filter.used_elements());
+          for(Index l = 0; same && l < f2.used_elements(); ++l) same = (f2.get_indices()[l] == filter.get_indices()[l]) && (f2.get_values()[l] == filter.get_values()[l]);
+          c.check(same, ku + " re-assembly", "adding the mesh part twice / assembling twice into the same filter changes the filter");
+        }
         // homogeneous version selects the same dofs with value 0
         LAFEM::UnitFilter<double, Index> f0;
         ufa.assemble(f0, space);
